@@ -7,14 +7,14 @@
  "annotate": ["datastruct/ptrheap.c", "datastruct/elasticarray.c"],
  "specs": {"datastruct/elasticarray.c": "contracts/c13_elasticarray_bounds.spec"},
  "models": ["models/heap_realloc.c", "models/heap_memcpy.c"],
- "defines": ["VERIF_HALLOC", "HP_TARGET_PTRHEAP", "HP_MAXN=7"],
- "thorough_defines": ["HP_MAXN=15"],
+ "defines": ["VERIF_HALLOC", "HP_TARGET_PTRHEAP", "HP_MAXN=5"],
+ "thorough_defines": ["HP_MAXN=7"],
  "matrix": {"HP_MODEL": [1, 2]},
  "loop_contracts": false,
  "cbmc": ["--unwindset", "heapify.0:5,heapifyup.0:5", "--malloc-may-fail", "--malloc-fail-null", "--memory-leak-check"],
- "unwind": 9, "thorough_unwind": 17,
- "bounded": true, "bound": "heaps with <= 7 elements (quick) / <= 15 (thorough); all loops fully unwound",
- "timeout": 600,
+ "unwind": 7, "thorough_unwind": 9,
+ "bounded": true, "bound": "heaps with <= 5 elements (quick) / <= 7 (thorough); all loops fully unwound",
+ "timeout": 600, "thorough_timeout": 3600,
  "assumptions": ["HP_MODEL=1: abstract user callbacks of harness/C13/hp_model.h; HP_MODEL=2: real struct timerrec, compar, setreccookie of timerqueue.c",
                  "slot k of the initial heap holds record object R[k]: symmetry reduction, sound for distinct elements because ptrheap.c never inspects element pointers (arbitrary layouts incl. duplicate pointers: groups *_any at 4 elements)",
                  "elasticarray.c is inlined (real code) with ghost bounds assertions (contracts/c13_elasticarray_bounds.spec); the pointer-list buffer is a heap object of constant capacity >= alloc, accesses are checked against the logical size, not the capacity",
@@ -26,7 +26,7 @@
 void
 h_ptrheap_create(void)
 {
-	IN(int, use_rc);
+	HP_USE_RC_DECL(use_rc);
 	IN(size_t, N);
 	__CPROVER_assume(N <= HP_MAXN);
 	void ** ptrs = malloc(HP_MAXN * sizeof(void *));	/* capacity HP_MAXN, the contract speaks about ptrs[0..N) only */
@@ -47,7 +47,7 @@ h_ptrheap_create(void)
 	H = ptrheap_create(HP_COMPAR, use_rc ? HP_SETRC : NULL, ck, N, ptrs);
 
 	VCOVER(H != NULL && use_rc && N == HP_MAXN && HP_E(H->elems, 0) == ptrs[HP_MAXN - 1]);
-	VCOVER(H != NULL && !use_rc && N >= 3 && HP_E(H->elems, 0) == ptrs[0]);
+	VCOVER1(H != NULL && !use_rc && N >= 3 && HP_E(H->elems, 0) == ptrs[0]);
 	VCOVER(H == NULL && N > 1);
 	VCOVER(H != NULL && N == 0);
 	/* release everything with the normal calls: the memory-leak obligation shows nothing else is live */
